@@ -9,6 +9,41 @@ import (
 	"time"
 )
 
+// quietCopy / quietAppend move transport bytes. In the race build they avoid
+// the instrumented runtime copy so that the transport's own buffer (which a
+// real kernel would synchronise) does not show up in race reports.
+//
+//go:norace
+func quietCopy(dst, src []byte) int {
+	if !RaceBuild {
+		return copy(dst, src)
+	}
+	n := len(src)
+	if len(dst) < n {
+		n = len(dst)
+	}
+	for i := 0; i < n; i++ {
+		dst[i] = src[i]
+	}
+	return n
+}
+
+//go:norace
+func quietAppend(dst, src []byte) []byte {
+	if !RaceBuild {
+		return append(dst, src...)
+	}
+	if cap(dst)-len(dst) < len(src) {
+		nd := make([]byte, len(dst), 2*cap(dst)+len(src))
+		quietCopy(nd, dst)
+		dst = nd
+	}
+	n := len(dst)
+	dst = dst[:n+len(src)]
+	quietCopy(dst[n:], src)
+	return dst
+}
+
 // Fault/cancel codes delivered to parked transport operations.
 const (
 	cancelClosed   = 1
@@ -107,8 +142,14 @@ func Pipe(s *Sim, name string) (a, b *End) {
 }
 
 // In / Out give access to the direction state (for fault configuration).
-func (e *End) In() *Dir   { return e.rd }
-func (e *End) Out() *Dir  { return e.wr }
+//
+//go:norace
+func (e *End) In() *Dir { return e.rd }
+
+//go:norace
+func (e *End) Out() *Dir { return e.wr }
+
+//go:norace
 func (e *End) Peer() *End { return e.peer }
 
 type simAddr string
@@ -116,9 +157,13 @@ type simAddr string
 func (a simAddr) Network() string { return "sim" }
 func (a simAddr) String() string  { return string(a) }
 
-func (e *End) LocalAddr() net.Addr  { return simAddr(e.Name) }
+//go:norace
+func (e *End) LocalAddr() net.Addr { return simAddr(e.Name) }
+
+//go:norace
 func (e *End) RemoteAddr() net.Addr { return simAddr(e.peer.Name) }
 
+//go:norace
 func (e *End) chunk(policy int, avail int, d *Dir) int {
 	if avail <= 1 {
 		return avail
@@ -151,6 +196,7 @@ func (e *End) chunk(policy int, avail int, d *Dir) int {
 	return avail
 }
 
+//go:norace
 func (e *End) maybeDelay(d *Dir) {
 	if d.DelayPct <= 0 || len(d.Delays) == 0 || e.NoPark {
 		return
@@ -170,6 +216,8 @@ func (e *End) maybeDelay(d *Dir) {
 }
 
 // readable reports (with lock held) whether a Read would make progress.
+//
+//go:norace
 func (e *End) readable() bool {
 	d := e.rd
 	if e.closed {
@@ -190,6 +238,7 @@ func (e *End) readable() bool {
 	return d.wclosed
 }
 
+//go:norace
 func (e *End) Read(p []byte) (int, error) {
 	s := e.S
 	if len(p) == 0 {
@@ -213,7 +262,7 @@ func (e *End) Read(p []byte) (int, error) {
 		defer s.mu.Unlock()
 		return e.takeLocked(p, true)
 	}
-	code := s.ParkE(e.Name+".rd", e.readable, func(en *Entry) { e.rEntry = en })
+	code := s.ParkE(e.Name+".rd", e.readable, e.setREntry)
 	s.mu.Lock()
 	defer s.mu.Unlock()
 	e.rEntry = nil
@@ -229,6 +278,7 @@ func (e *End) Read(p []byte) (int, error) {
 	return e.takeLocked(p, false)
 }
 
+//go:norace
 func (e *End) takeLocked(p []byte, all bool) (int, error) {
 	d := e.rd
 	d.ops++
@@ -277,7 +327,7 @@ func (e *End) takeLocked(p []byte, all bool) (int, error) {
 			e.S.Stats["fault.split-read"]++
 		}
 	}
-	copy(p, d.buf[:k])
+	quietCopy(p, d.buf[:k])
 	d.buf = d.buf[k:]
 	d.Delivered += int64(k)
 	if len(d.buf) == 0 {
@@ -286,6 +336,7 @@ func (e *End) takeLocked(p []byte, all bool) (int, error) {
 	return k, nil
 }
 
+//go:norace
 func (e *End) writable() bool {
 	d := e.wr
 	if e.closed || d.rclosed {
@@ -297,6 +348,7 @@ func (e *End) writable() bool {
 	return len(d.buf) < d.Cap || d.ops > d.OpBudget && !d.HardCap
 }
 
+//go:norace
 func (e *End) Write(p []byte) (int, error) {
 	s := e.S
 	d := e.wr
@@ -315,7 +367,7 @@ func (e *End) Write(p []byte) (int, error) {
 		nopark := e.NoPark
 		s.mu.Unlock()
 		if !nopark {
-			code := s.ParkE(e.Name+".wr", e.writable, func(en *Entry) { e.wEntry = en })
+			code := s.ParkE(e.Name+".wr", e.writable, e.setWEntry)
 			s.mu.Lock()
 			e.wEntry = nil
 			switch code {
@@ -367,7 +419,7 @@ func (e *End) Write(p []byte) (int, error) {
 			}
 		}
 		if d.TapOn {
-			d.Tap = append(d.Tap, p[:k]...)
+			d.Tap = quietAppend(d.Tap, p[:k])
 		}
 		if d.CutAt >= 0 && d.DropTail && d.Written+int64(k) > d.CutAt {
 			// keep only what the reader can still get
@@ -375,9 +427,9 @@ func (e *End) Write(p []byte) (int, error) {
 			if keep < 0 {
 				keep = 0
 			}
-			d.buf = append(d.buf, p[:keep]...)
+			d.buf = quietAppend(d.buf, p[:keep])
 		} else {
-			d.buf = append(d.buf, p[:k]...)
+			d.buf = quietAppend(d.buf, p[:k])
 		}
 		d.Written += int64(k)
 		if d.OnWrite != nil {
@@ -393,14 +445,16 @@ func (e *End) Write(p []byte) (int, error) {
 
 // Inject appends bytes to this endpoint's outgoing direction without parking
 // or capacity (scripted peers preload their stream with it).
+//
+//go:norace
 func (e *End) Inject(p []byte) {
 	s := e.S
 	s.mu.Lock()
 	d := e.wr
 	if d.TapOn {
-		d.Tap = append(d.Tap, p...)
+		d.Tap = quietAppend(d.Tap, p)
 	}
-	d.buf = append(d.buf, p...)
+	d.buf = quietAppend(d.buf, p)
 	d.Written += int64(len(p))
 	s.mu.Unlock()
 	s.kick()
@@ -408,6 +462,8 @@ func (e *End) Inject(p []byte) {
 
 // Close never parks: it marks the endpoint closed and cancels this
 // endpoint's parked operations (what closing a socket does).
+//
+//go:norace
 func (e *End) Close() error {
 	s := e.S
 	s.mu.Lock()
@@ -439,6 +495,8 @@ func (e *End) Close() error {
 
 // CloseWrite half-closes: the peer reads EOF after draining, this side can
 // still read.
+//
+//go:norace
 func (e *End) CloseWrite() {
 	s := e.S
 	s.mu.Lock()
@@ -449,12 +507,15 @@ func (e *End) CloseWrite() {
 }
 
 // Closed reports whether Close was called on this endpoint.
+//
+//go:norace
 func (e *End) Closed() bool {
 	e.S.mu.Lock()
 	defer e.S.mu.Unlock()
 	return e.closed
 }
 
+//go:norace
 func (e *End) SetDeadline(t time.Time) error {
 	e.SetReadDeadline(t)
 	e.SetWriteDeadline(t)
@@ -462,6 +523,8 @@ func (e *End) SetDeadline(t time.Time) error {
 }
 
 // SetReadDeadline never parks; it cancels or re-times a parked Read.
+//
+//go:norace
 func (e *End) SetReadDeadline(t time.Time) error {
 	s := e.S
 	s.mu.Lock()
@@ -491,6 +554,7 @@ func (e *End) SetReadDeadline(t time.Time) error {
 	return nil
 }
 
+//go:norace
 func (e *End) SetWriteDeadline(t time.Time) error {
 	s := e.S
 	s.mu.Lock()
@@ -520,13 +584,23 @@ func (e *End) SetWriteDeadline(t time.Time) error {
 	return nil
 }
 
+//go:norace
+func (e *End) setREntry(en *Entry) { e.rEntry = en }
+
+//go:norace
+func (e *End) setWEntry(en *Entry) { e.wEntry = en }
+
 // InRead / InWrite report whether a goroutine is currently parked in this
 // endpoint's Read / Write (used by oracles that need "blocked in I/O").
+//
+//go:norace
 func (e *End) InRead() bool {
 	e.S.mu.Lock()
 	defer e.S.mu.Unlock()
 	return e.rEntry != nil
 }
+
+//go:norace
 func (e *End) InWrite() bool {
 	e.S.mu.Lock()
 	defer e.S.mu.Unlock()
@@ -535,10 +609,16 @@ func (e *End) InWrite() bool {
 
 // InReadLocked / InWriteLocked are InRead / InWrite for ready predicates,
 // which run with the simulator lock held.
-func (e *End) InReadLocked() bool  { return e.rEntry != nil }
+//
+//go:norace
+func (e *End) InReadLocked() bool { return e.rEntry != nil }
+
+//go:norace
 func (e *End) InWriteLocked() bool { return e.wEntry != nil }
 
 // Debug describes the endpoint state (diagnostics in violation messages).
+//
+//go:norace
 func (e *End) Debug() string {
 	e.S.mu.Lock()
 	defer e.S.mu.Unlock()
